@@ -179,15 +179,25 @@ def bump : List Nat → Nat → List Nat
   | c :: cs, 0 => (c + 1) :: cs
   | c :: cs, i + 1 => c :: bump cs i
 
-/-- the index a CHOICE update uses: `int`, numpy integer or `bool` -/
+/-- what `Result.update` does to an argument on entry: a numpy scalar or a 0-d
+    array is replaced by the Python number of the same value (`value.item()`);
+    anything else is stored as given -/
+def itemOf : PyVal → PyVal
+  | .npint _ _ i => .int i
+  | .npfloat _ f => .float f
+  | .npbool b => .bool b
+  | .ndarray _ [] d => C17.norm d
+  | v => v
+
+/-- the index a CHOICE update uses (after `itemOf`): `int` or `bool` -/
 def choiceIndex : PyVal → Option Int
   | .int i => some i
   | .npint _ _ i => some i
   | .bool b => some (if b then 1 else 0)
   | _ => .none
 
-/-- `Result.update(p)` of a CHOICETYPE result -/
-def choiceUpdate (c : Choice) (p : PyVal) : R Choice :=
+/-- the CHOICE update proper, on the already converted argument -/
+def choiceApply (c : Choice) (p : PyVal) : R Choice :=
   match choiceIndex p with
   | .none => raise .AssertionError
   | some i =>
@@ -197,6 +207,10 @@ def choiceUpdate (c : Choice) (p : PyVal) : R Choice :=
       .ok { c with counts := bump c.counts idx, total := c.total + 1, numUpdates := c.numUpdates + 1,
                    valueList := if c.acc then c.valueList ++ [p] else c.valueList }
     else raise .IndexError
+
+/-- `Result.update(p)` of a CHOICETYPE result (a call that raises leaves the
+    result unchanged: there is no state in the error case) -/
+def choiceUpdate (c : Choice) (p : PyVal) : R Choice := choiceApply c (itemOf p)
 
 def runChoice (c : Choice) : List PyVal → R Choice
   | [] => .ok c
@@ -370,6 +384,15 @@ def saveToFile (fr : Nat → PyFloat → String) (st : Store) (s : SimResults)
       | some .pickle => .ok ((f, .pickled s') :: st, s', f)
       | some .json => .ok ((f, .json (simToJson s')) :: st, s', f)
       | .none => raise .KeyError
+
+/-- `save_to_file` as a step of the object-and-store state: a call that raises
+    (unknown extension, …) leaves both the object — including its
+    `original_filename` — and the store exactly as they were -/
+def saveStep (fr : Nat → PyFloat → String) (st : Store) (s : SimResults)
+    (tplText : String) (tpl : List Seg) (ext : String) : (Store × SimResults) × R FName :=
+  match saveToFile fr st s tplText tpl ext with
+  | .ok (st', s', f) => ((st', s'), .ok f)
+  | .error e => ((st, s), .error e)
 
 /-- `load_from_file` (`RuntimeError` stands for `FileNotFoundError`) -/
 def loadFromFile (fuel : Nat) (st : Store) (f : FName) : R SimResults :=
